@@ -209,6 +209,8 @@ def _reaction_cases(tier):
             for sim in ("Elastic", "Thermal"):
                 for load in ("nodal", "body"):
                     out.append({"kind": "reaction", "sim": sim, "dim": dim, "mesh": md, "load": load})
+            # a user weak form with a NON symmetric operator (rows of K and columns of K are different things)
+            out.append({"kind": "reaction", "sim": "WeakNonsym", "dim": dim, "mesh": md, "load": "nodal"})
     for dim in (1, 2, 3):
         for et in BEAM_TYPES:
             for theory in ("EB", "Timo"):
@@ -1104,6 +1106,13 @@ def _run_reaction(case):
         if sim == "Elastic":
             mat = Models.Elastic.Isotropic(dim, E=2.3, v=0.28, planeStress=True, thickness=0.7)
             simu = Simulations.Elastic(mesh, mat)
+        elif sim == "WeakNonsym":
+            from EasyFEA.FEM import BiLinearForm, Field
+
+            if len(mesh.Get_list_groupElem()) > 1:
+                return {"violations": [], "skipped": "weak forms are written on one element group", "fingerprint": "na", "nontrivial": False}
+            A = np.array([[0.6, 0.5, -0.2], [-0.3, 0.9, 0.4], [0.1, -0.35, 0.8]])[:dim, :dim]
+            simu = Simulations.WeakForms(mesh, Models.WeakForms(Field(mesh.groupElem, 1), computeK=BiLinearForm(lambda u, w: (u.grad @ A).dot(w.grad))))
         else:
             simu = Simulations.Thermal(mesh, Models.Thermal(k=1.5, c=0.8, thickness=0.7))
     unk = simu.Get_unknowns()
